@@ -104,7 +104,8 @@ class _TempFactory:
         name = '/sim/dir/tmp%d' % self.made
         fd = self.simos.open(name, _REAL_OS.O_RDWR | _REAL_OS.O_CREAT | _REAL_OS.O_EXCL, 0o600)
         self.simos.unlink(name)
-        return self.simos.fdopen(fd, 'w+b', self.bufsize)
+        # the write-back size is the seeded knob unless the caller asked for a particular buffering itself
+        return self.simos.fdopen(fd, 'w+b', self.bufsize if buffering in (-1, None) else buffering)
 
 
 TEXT_ALPHA = ['a', 'b', 'c', ' ', '\n', '\n', '\n', '\r\n', '\r', 'é', '—', '\U0001F600', 'ß', '日',
@@ -189,6 +190,12 @@ def gen_case(rng, tier):
                 {'max_size': rng.choice([rng.randint(2, 40), 21333, 21400, 50000]), 'bufsize': rng.choice([1, 8, 64, 8192]), 'roll_at': None},
                 {'max_size': 1 << 40, 'bufsize': rng.choice([1, 8, 64, 8192]),
                  'roll_at': rng.randint(0, nops), 'roll_how': rng.choice(['rollover', 'fileno'])}]
+    if rng.random() < 0.2 and not any(op[0] == 'write' and len(op[1]) > 2000 for op in ops):
+        # the kernel accepts only a few bytes per physical write (a legal short write every time): a buffered
+        # temporary file hides that, anything that writes to the descriptor or a raw file must loop
+        replicas.append({'max_size': rng.choice([1, 5, rng.randint(2, 40)]), 'bufsize': rng.choice([1, 8, 64, 8192]),
+                         'roll_at': rng.choice([None, None, rng.randint(0, nops)]), 'roll_how': 'rollover',
+                         'short_writes': rng.choice([1, 3, 7])})
     if rng.random() < 0.25:
         # fault injection: the disk is full for the first physical write of the temporary file (one-shot)
         replicas.append({'max_size': rng.choice([rng.randint(2, 40), 5, 9]), 'bufsize': rng.choice([1, 8, 64, 8192]),
@@ -213,7 +220,8 @@ def _gen_mfr(rng):
     if rng.random() < 0.02:
         k = rng.choice([300, 1100, 2500])              # scale: very many (mostly empty or tiny) members
     cuts = sorted(rng.randint(0, content_len) for _ in range(k - 1))
-    kinds = [rng.choice(['io', 'spooled', 'spooled-rolled']) for _ in range(k)] if k <= 5 else ['io'] * k
+    kinds = [rng.choice(['io', 'spooled', 'spooled-rolled', 'io', 'spooled', 'spooled-rolled', 'nested'])
+             for _ in range(k)] if k <= 5 else ['io'] * k      # 'nested': the member is itself a MultiFileReader
     ops = []
     for _ in range(rng.randint(1, 10)):
         r = rng.random()
@@ -428,6 +436,8 @@ def run_case(case):
         fs = simfs.SimFS()
         plan = simfs.Plan(faults={('raw.write', 0): ('errno', errno.ENOSPC)}) if rc.get('enospc') else simfs.Plan()
         sim = simfs.Sim(fs, plan, None, blksize=8192)
+        if rc.get('short_writes'):
+            sim.persistent['raw.write'] = ('short', rc['short_writes'])
         reps.append({'cfg': rc, 'sim': sim, 'f': None, 'rolled_at': None, 'dropped': False})
     for rp in reps:
         rp['fac'] = _install(rp['sim'], rp['cfg']['bufsize'])
@@ -608,15 +618,25 @@ def _run_mfr(case):
     sim = simfs.Sim(fs, simfs.Plan(), None)
     _install(sim, case.get('bufsize', 8192))
     members = []
+    nested_objs = []
     for part, kind in zip(parts, kinds):
         if kind == 'io':
             m = io.StringIO(part) if text else io.BytesIO(part)
+        elif kind == 'nested' and not text:
+            h = len(part) // 2
+            subs = [io.BytesIO(part[:h]), io.BytesIO(part[h:])]
+            nested_objs.extend(subs)        # (closed at the end with the others)
+            m = iou.MultiFileReader(*subs)
+        elif kind == 'nested':
+            m = io.StringIO(part)
         else:
             m = (iou.SpooledStringIO if text else iou.SpooledBytesIO)(max_size=1 if kind == 'spooled-rolled' else 1 << 40)
             m.write(part)
             m.seek(0)
         mp = (case.get('member_pos') or [])
         where = mp[len(members)] if len(members) < len(mp) else 0
+        if isinstance(m, iou.MultiFileReader):
+            where = 0
         if where == 'end':
             m.seek(len(part))
         elif where == 'mid':
@@ -667,7 +687,7 @@ def _run_mfr(case):
                     after_seek = True
             pos += len(got)
     finally:
-        for m in members:
+        for m in members + nested_objs:
             try:
                 m.close()
             except Exception:
